@@ -29,6 +29,7 @@ import (
 	"math/rand"
 	"net"
 	"net/http"
+	"os"
 	"sort"
 	"strconv"
 	"strings"
@@ -359,25 +360,34 @@ func rawMessage(dps []ref.Datapoint) *pb.RawMessageV2 {
 	return m
 }
 
-func freeAddr() string {
-	l, err := net.Listen("tcp", "127.0.0.1:0")
-	if err != nil {
-		return "127.0.0.1:0"
-	}
-	defer l.Close()
-	return l.Addr().String()
-}
 
 const (
 	srvOK = iota
 	srvInconclusive
 	srvMissing
+	srvCollision // the ingestion port was taken by somebody else: nothing was sent, try another port
 )
 
 // runServer plays the case once. It returns the status, what the backend saw, and what is still missing.
 func (c *checker) runServer(sc *serverCase) (int, string, map[string]seenSeries, map[string]expectation) {
+	for attempt := 0; attempt < 5; attempt++ {
+		st, why, seen, miss := c.runServerOnce(sc)
+		if st != srvCollision {
+			return st, why, seen, miss
+		}
+		c.r.Event("server_port_retry", 1)
+	}
+	return srvInconclusive, "no-port-for-the-ingestion-server", nil, nil
+}
+
+func (c *checker) runServerOnce(sc *serverCase) (int, string, map[string]seenSeries, map[string]expectation) {
 	r := c.r
-	addr := freeAddr()
+	port := pickPort()
+	if port == 0 {
+		return srvCollision, "", nil, nil
+	}
+	addr := "127.0.0.1:" + strconv.Itoa(port)
+	failuresBefore := bindFailures.Load()
 	v := viper.New()
 	v.SetConfigType("toml")
 	text := sc.configText(addr)
@@ -414,6 +424,12 @@ func (c *checker) runServer(sc *serverCase) (int, string, map[string]seenSeries,
 		case <-time.After(serverWatchdog):
 			return false
 		}
+	}
+
+	// no traffic before this process is known to own the ingestion port (another process may have bound it)
+	if !awaitOwnListener(port, failuresBefore, 20*time.Second) {
+		stop()
+		return srvCollision, "", nil, nil
 	}
 
 	// expectations
@@ -749,4 +765,85 @@ func genServerCase(rng *rand.Rand) *serverCase {
 
 func init() {
 	logrus.SetOutput(io.Discard) // the server logs through the standard logger
+	logrus.AddHook(bindHook{})
 }
+// ---------------------------------------------------------------------------------------------
+// a port for the ingestion server that no other process can be talking to
+//
+// The server only takes an address string, so a port has to be chosen before it binds. Ports are taken from
+// below the ephemeral range (other tests and outgoing connections use ":0"), and no traffic is sent until
+// /proc shows that THIS process owns the listening socket; a bind failure is seen through a logrus hook.
+
+var bindFailures atomic.Int64
+var portCounter atomic.Int64
+
+type bindHook struct{}
+
+func (bindHook) Levels() []logrus.Level { return []logrus.Level{logrus.ErrorLevel} }
+func (bindHook) Fire(e *logrus.Entry) error {
+	if e.Message == "web server failed" {
+		bindFailures.Add(1)
+	}
+	return nil
+}
+
+func pickPort() int {
+	for i := 0; i < 50; i++ {
+		x := uint64(os.Getpid())<<24 + uint64(portCounter.Add(1))
+		x ^= x >> 30
+		x *= 0xbf58476d1ce4e5b9
+		x ^= x >> 27
+		x *= 0x94d049bb133111eb
+		x ^= x >> 31
+		port := 10000 + int(x%20000)
+		l, err := net.Listen("tcp", "127.0.0.1:"+strconv.Itoa(port))
+		if err == nil {
+			_ = l.Close()
+			return port
+		}
+	}
+	return 0
+}
+
+// ownsListener reports whether this process holds the socket listening on 127.0.0.1:port.
+func ownsListener(port int) bool {
+	b, err := os.ReadFile("/proc/net/tcp")
+	if err != nil {
+		return false
+	}
+	local := fmt.Sprintf("0100007F:%04X", port)
+	inode := ""
+	for _, line := range strings.Split(string(b), "\n") {
+		f := strings.Fields(line)
+		if len(f) > 9 && f[1] == local && f[3] == "0A" {
+			inode = f[9]
+		}
+	}
+	if inode == "" {
+		return false
+	}
+	fds, err := os.ReadDir("/proc/self/fd")
+	if err != nil {
+		return false
+	}
+	for _, fd := range fds {
+		if t, err := os.Readlink("/proc/self/fd/" + fd.Name()); err == nil && t == "socket:["+inode+"]" {
+			return true
+		}
+	}
+	return false
+}
+
+// awaitOwnListener: true once this process listens on the port; false on a bind failure or after the watchdog.
+func awaitOwnListener(port int, failuresBefore int64, d time.Duration) bool {
+	ok := false
+	mon.WaitUntil(d, func() bool {
+		if bindFailures.Load() != failuresBefore {
+			return true
+		}
+		ok = ownsListener(port)
+		return ok
+	})
+	return ok && bindFailures.Load() == failuresBefore
+}
+
